@@ -66,6 +66,8 @@ type Case struct {
 	// reconnect
 	Losses   int    `json:"losses,omitempty"`
 	LossAt   string `json:"loss_at,omitempty"` // idle | between-phases
+	// Bystander: a second coordinator session stays open while the first is lost and re-established
+	Bystander bool `json:"bystander,omitempty"`
 	Sessions int    `json:"sessions,omitempty"`
 }
 
@@ -296,6 +298,13 @@ func runReconnect(c Case) *pt.Failure {
 	if !tc.WaitRegistered(s, 5*time.Second) {
 		return pt.Failf("C19/reconnect/no-tm-registration", "first session never received RegisterTMRequest")
 	}
+	if c.Bystander {
+		by := tc.OpenAt("10.1.0.77:8091")
+		defer tc.Lose(by)
+		if !tc.WaitRegistered(by, 5*time.Second) {
+			return pt.Failf("C19/reconnect/no-tm-registration", "second session never received RegisterTMRequest")
+		}
+	}
 	var err error
 	tccOnce.Do(func() { tccProxy, err = tcc.NewTCCServiceProxy(tccAct) })
 	if err != nil || tccProxy == nil {
@@ -446,8 +455,8 @@ func TestPropReconnect(t *testing.T) {
 		if n++; n > slowCap() {
 			return
 		}
-		c := Case{Kind: "reconnect", Losses: rapid.IntRange(1, 3).Draw(rt, "losses"), LossAt: rapid.SampledFrom([]string{"idle", "between-phases"}).Draw(rt, "lossAt")}
-		ctx.Rec.Case("reconnect", true, fmt.Sprintf("%d|%s", c.Losses, c.LossAt), c, "kind:reconnect", "loss-at:"+c.LossAt)
+		c := Case{Kind: "reconnect", Losses: rapid.IntRange(1, 3).Draw(rt, "losses"), LossAt: rapid.SampledFrom([]string{"idle", "between-phases"}).Draw(rt, "lossAt"), Bystander: rapid.Bool().Draw(rt, "bystander")}
+		ctx.Rec.Case("reconnect", true, fmt.Sprintf("%d|%s|%v", c.Losses, c.LossAt, c.Bystander), c, "kind:reconnect", "loss-at:"+c.LossAt, fmt.Sprintf("bystander:%v", c.Bystander))
 		ctx.Judge(rt, "reconnect", runCase(c), c)
 	})
 }
